@@ -330,6 +330,8 @@ class NodeBase(object):
         """
         self._frozen = False
         self._stale = True
+        # updates to the children were ignored while frozen: the parents have to be re-evaluated as well
+        self.notify_parents()
 
     def mark_for_update(self):
         """
